@@ -129,7 +129,7 @@ def run(tier, seed, replay):
         rep.violation("harness-build", dict(what="sim harness does not build", log=out[-2000:]), False)
         return rep.finish()
     kws = [dict(policy="black"), dict(policy="white"), dict(policy="black", nclients=3, weights=dict(sop=7.0)), dict(policy="white", auth="custom")]
-    o2, d2 = simcheck.sim_collect(rep, "C08", tier, rng, seed, kws, 160, 4000, oracle_props={"C08"}, known_ids=("D22",),
+    o2, d2 = simcheck.sim_collect(rep, "C08", tier, rng, seed, kws, 160, 16000, oracle_props={"C08"}, known_ids=("D22",),
                                   rule_extra=", both visibility policies with repeated and cancelling set_visibility calls")
     if o2 and not oracle_fail:
         f = o2[0]
